@@ -569,7 +569,9 @@ impl<P: PathManager> UdpScionSocket<P> {
                 scion_sdk_utils::verif::system_now(),
             )
             .await?;
-        self.socket.send_to_via(payload, destination, path).await
+        // Via the reporting variant: a send failure on a path the manager chose is what the send
+        // error receivers (the path manager) need to hear about.
+        self.send_to_via(payload, destination, path).await
     }
 
     /// Send a datagram to the specified destination via the specified path.
